@@ -91,6 +91,14 @@ func knownWitnesses() []witness {
 func TestC32Known(t *testing.T) {
 	st := stats.New("C32", "witness")
 	defer st.Flush()
+	held, deviated := map[string]int{}, map[string]int{}
+	defer func() {
+		for id := range held {
+			if deviated[id] == 0 {
+				t.Logf("STALE: finding %s is listed but all of its %d witnesses now satisfy the property", id, held[id])
+			}
+		}
+	}()
 	for _, w := range knownWitnesses() {
 		st.Eval()
 		f := fx.New(fx.Opts{})
@@ -111,8 +119,12 @@ func TestC32Known(t *testing.T) {
 		}
 		if msg == "" {
 			st.Class("witness-holds:" + w.id)
+			if kf.Listed(w.id) {
+				held[w.id]++
+			}
 			continue
 		}
+		deviated[w.id]++
 		st.Class("witness-deviates:" + w.id)
 		st.NonTrivial(nil, w.sql)
 		if kf.Suppress(st, w.id) {
